@@ -50,6 +50,7 @@ func cmdSys(args []string) {
 	out := fs.String("out", "-", "output file (JSON lines)")
 	dir := fs.String("dir", "/dev/shm", "scratch directory for database files")
 	workers := fs.Int("workers", 8, "parallel traces")
+	exact := fs.Uint64("seed-exact", 0, "run exactly this trace seed (replay)")
 	_ = fs.Parse(args)
 	f, ok := families[*fam]
 	if !ok {
@@ -76,7 +77,11 @@ func cmdSys(args []string) {
 		go func(i int) {
 			defer wg.Done()
 			defer func() { <-sem }()
-			traces[i] = runTrace(f, *seed*1000003+uint64(i), *dir)
+			sd := *seed*1000003 + uint64(i)
+			if *exact != 0 {
+				sd = *exact
+			}
+			traces[i] = runTrace(f, sd, *dir)
 		}(i)
 	}
 	wg.Wait()
